@@ -190,6 +190,16 @@ def check_arg_vars(a, params, errs):
 
 
 # ------------------------------------------------------------------ std extensions (spec files)
+#: extensions registered by the harness (documents written by hand in the reference encoding);
+#: the reference toolchain would be given them through its extension registry as well
+EXTRA_EXTENSIONS: dict = {}
+
+
+def register_extension(doc) -> None:
+    EXTRA_EXTENSIONS[doc["name"]] = doc
+    std_extensions.cache_clear()
+
+
 @lru_cache(maxsize=1)
 def std_extensions():
     root = os.path.join(os.environ.get("HUGR_REPO", "/repo"), "specification", "std_extensions")
@@ -199,6 +209,7 @@ def std_extensions():
             if fn.endswith(".json"):
                 d = json.load(open(os.path.join(dp, fn)))
                 exts[d["name"]] = d
+    exts.update(EXTRA_EXTENSIONS)
     return exts
 
 
